@@ -113,6 +113,16 @@ THeff == /\ Rec.ev = "heff"
                /\ MIsHermitian(H) => lhs = GConj(back)               \* Heff Hermitian whenever the MPO is
                /\ Rec.hermitian = MIsHermitian(H)
          /\ den' = den
+(* two-site effective Hamiltonian on sites i, i+1 (merged tensors as in the two-site algorithms) *)
+THeff2 == /\ Rec.ev = "heff2"
+          /\ LET As == MpsOf(Rec.psi)  Ws == MpoOf(Rec.op)  i == Rec.site
+                 Lb == LeftBlocks(As, As, Ws)[i]
+                 Rb == RightBlocks(As, As, Ws)[i + 1]
+                 Wm == MergeMPO2(Ws[i], Ws[i + 1])
+                 Am == MergeMPS2(T3(Rec.At0), T3(Rec.At1))
+             IN /\ T4(Rec.Wm) = Wm /\ T3(Rec.Am) = Am              \* merge_mpo_tensor_pair / merge_mps_tensor_pair
+                /\ T3(Rec.out) = ApplyHeff(Lb, Rb, Wm, Am)
+          /\ den' = den
 (* zero-site bond operator between sites i and i+1 *)
 TKeff == /\ Rec.ev = "keff"
          /\ LET As == MpsOf(Rec.psi)  Ws == MpoOf(Rec.op)  i == Rec.site
@@ -122,7 +132,7 @@ TKeff == /\ Rec.ev = "keff"
          /\ den' = den
 
 TAny == TNewMps \/ TNewMpo \/ TAddMps \/ TAddMpo \/ TMul \/ TApply \/ TIdentity \/ TDenseVec \/ TDenseMat
-        \/ TVdot \/ TAvg \/ TOda \/ TBlocks \/ TStepLR \/ TStep2 \/ THeff \/ TKeff
+        \/ TVdot \/ TAvg \/ TOda \/ TBlocks \/ TStepLR \/ TStep2 \/ THeff \/ THeff2 \/ TKeff
 TStep == HasRec /\ TAny /\ Advance
 TNextTrace == /\ tid <= Len(Tr) /\ l > Len(Tr[tid])
               /\ TLCSet(1, TLCGet(1) \cup {tid})
@@ -140,6 +150,7 @@ Diagnose ==
     ELSE IF Rec.ev = "right_blocks" THEN "compute_right_operator_blocks differs from the index-sum recursion"
     ELSE IF Rec.ev \in {"step_left", "step_right", "cstep_left", "cstep_right"} THEN "transfer contraction step differs from the index sum"
     ELSE IF Rec.ev = "heff" THEN "apply_local_hamiltonian: index sum / projection identity / Hermiticity"
+    ELSE IF Rec.ev = "heff2" THEN "two-site local Hamiltonian: merged tensors or index sum differ"
     ELSE IF Rec.ev = "keff" THEN "apply_local_bond_contraction differs from the index sum"
     ELSE "unexpected event"
 TReject == /\ HasRec /\ ~ENABLED TStep
